@@ -479,7 +479,11 @@ func (root *Root) replaceArgVars(vars map[string]interface{}, v interface{}, at 
 		}
 	case []interface{}:
 		var mt Type
-		if lt, _ := at.(*List); lt != nil {
+		lat := at
+		if nn, _ := lat.(*NonNull); nn != nil { // [T]! is a list as well
+			lat = nn.Base
+		}
+		if lt, _ := lat.(*List); lt != nil {
 			mt = lt.Base
 		}
 		cp := make([]interface{}, len(tv))
